@@ -28,7 +28,8 @@ unsigned y_log_error;
 
 /* std::array<T,N>: struct { T a[N]; }.  .at(i) is an in-bounds obligation (CBMC --bounds-check on a[i]);
  * an out-of-range index would throw and terminate the real program. */
-#define Y_AT(p, i, N) (&(p)->a[(i)])
+static inline uint64_t y_at_idx(uint64_t i, uint64_t n) { __CPROVER_assert(i < n, "std::array::at: index in range (out of range would throw and terminate)"); return i; }
+#define Y_AT(p, i, N) (&(p)->a[y_at_idx((i), (N))])
 /* range-for end pointer. With -DY_SYMBOLIC_TABLE=<cap> the array of that capacity (the session table) is iterated up to a
  * symbolic configured capacity y_table_n <= cap, so that one proof covers every YAKUSHIMA_MAX_PARALLEL_SESSIONS. */
 uint64_t y_table_n;
@@ -227,8 +228,9 @@ unsigned y_ev;
 #define Y_VEC_CLEAR(v) ((v)->size = 0)
 #define Y_VEC_BEGIN(v) (&(v)->buf[0])
 #define Y_VEC_END(v) (&(v)->buf[0] + (v)->size)
-#define Y_VEC_AT(v, i) (&(v)->buf[(i)])
-#define Y_VEC_PUSH(v, T, x) ((v)->buf[(v)->size] = (x), (v)->size++)
+static inline uint64_t y_vec_at_idx(uint64_t i, uint64_t n) { __CPROVER_assert(i < n, "std::vector::at: index < size (out of range would throw)"); return i; }
+#define Y_VEC_AT(v, i) (&(v)->buf[y_vec_at_idx((i), (v)->size)])
+#define Y_VEC_PUSH(v, T, x) (__CPROVER_assert((v)->size < Y_VEC_CAP, "ghost vector capacity (model bound)"), (v)->buf[(v)->size] = (x), (v)->size++)
 #define Y_VEC_ERASE(v, b, e) ((v)->size -= (uint64_t)((e) - (b)))   /* only erase(end - n, end) occurs */
 #endif
 
